@@ -15,7 +15,7 @@ func init() {
 	register(&Property{
 		ID:          "C07",
 		Technique:   "static analysis: inter-procedural dependence summaries (data and control dependence on clock/random sources, relative to parameters) over the registry-resolved apply handlers and everything they call; ORDER/GUARD rules on the batch cut in ApplyRaftRequest; idiom classification of map iterations on the apply path",
-		Explanation: "Decides: (T1) on the synchronous apply path (every registered apply handler, ApplyRaftRequest, the batch operator, custom/schema requests, and all module functions they reach through static calls and interface implementations, go statements not followed) no value that depends on the local clock, a random source or process identity reaches a write-batch operation, a decision that controls one, the handler's reply, or the reply handed to the waiting client; (T2) a command that is not batchable is preceded by a commit of the open batch, a key is batched at most once per batch, non-redis requests commit the batch first; (T3) every map iteration on the apply path is order-insensitive by idiom.",
+		Explanation: "Decides: (T1) on the synchronous apply path (every registered apply handler, ApplyRaftRequest, the batch operator, custom/schema requests, and all module functions they reach through static calls and interface implementations, go statements not followed) no value that depends on the local clock, a random source or process identity reaches a write-batch operation, a decision that controls one, the handler's reply, or the reply handed to the waiting client; (T2) a command that is not batchable is preceded by a commit of the open batch, a key is batched at most once per batch, non-redis requests commit the batch first; (T3) every map iteration on the apply path is order-insensitive by idiom. T1 also pins the one replica-local cache on the apply path: PFADD raises its reply only when the sketch accepted an element or no stored sketch exists (never merely because the sketch was not cached). T2 also requires that every batchable command hands the store exactly the key registered for the duplicate check (cmd.Args[1]), unless IsBatchable refuses its multi-key form.",
 		NotDecided:  "engine-level nondeterminism inside pebble/rocksdb, float formatting, agreement of different engines (C20), leader-vs-follower differences that are not clock/order related, whether the batchable commands only read state of their own key.",
 		Assumptions: []string{"dependence is tracked per variable (flow-insensitive inside a function) and per struct field for clock-derived values; calls outside the module return values that depend on their arguments only, except the listed sources (time.Now/Since/Until, math/rand, crypto/rand, os.Getpid/Hostname, runtime.NumGoroutine)", "goroutines started on the apply path are not followed (listed in the evidence)", "logging, metrics and slow-log calls have no effect on data"},
 		Run:         runC07,
@@ -125,6 +125,21 @@ func c07T2(c *Ctx) {
 		okDef := u.Match(an.LocalStore("ok"))
 		r.Check("C07-T2", "IsBatchable: the duplicate test looks the command's key up in the keys of the open batch", "",
 			len(okDef) == 1 && okDef[0].Tuple != nil && u.C.Term(okDef[0].Tuple) == "recv.dupCheckMap[string(p1)]", "")
+	}
+	// T1 (cache residency): the HLL cache is replica-local volatile state (it is emptied by restarts and evictions that
+	// are not in the log). PFADD's reply must not depend on whether the sketch happened to be cached: `changed` is raised
+	// only when the sketch accepted an element or when no stored sketch exists
+	if u := c.unit("C07-T1", "rockredis.(*RockDB).PFAdd"); u != nil {
+		n := 0
+		for _, s := range u.Match(an.LocalStore("changed")) {
+			if s.RHS == nil || u.C.Term(s.RHS) != "true" {
+				continue
+			}
+			n++
+			r.GuardSite("C07-T1", u, s, c.W.Parse("added || nil == oldV"), "the sketch accepted an element, or there is no stored sketch")
+		}
+		r.Min("C07-T1", n, 2, "PFAdd: places where the reply becomes 1")
+		r.StoreValues("C07-T1", u, an.LocalStore("added"), []string{"TUPLE p3.addCount(recv.hasher64, p2...) #0", "TUPLE item.addCount(recv.hasher64, p2...) #0"}, 0)
 	}
 	// every key a batchable command writes is covered by the duplicate check: the check registers cmd.Args[1] only, so
 	// the apply handler of a batchable command hands exactly that key to the store, unless IsBatchable refuses the
